@@ -35,6 +35,7 @@ type Val struct {
 	HasCLen bool
 	From    *Addr // address the value was loaded from (provenance, for guarded_by)
 	Sub     *SubObj // pointer to a nested struct field: which field of which object
+	Borrowed string // non-empty: a slice borrowed from a callee (valid only until its next call); names the lender
 }
 
 type SubObj struct {
